@@ -137,6 +137,13 @@ P('lat_allbound_par', ['relation inp(i32, i32)', 'lattice best(i32, i32)', 'rela
   ['best(x, *y) <-- inp(x, y)', 'hit(x, v) <-- probe(x, v), best(x, v)'], macro='ascent_par', tags=['lattice', 'lat_allbound'])
 P('lat_neg', ['relation inp(i32, i32)', 'lattice best(i32, i32)', 'relation cand(i32, i32)', 'relation miss(i32, i32)', 'relation n_exact(i32, usize)'],
   ['best(x, *y) <-- inp(x, y)', 'miss(x, v) <-- cand(x, v), !best(x, v)', 'n_exact(x, c) <-- cand(x, v), agg c = count() in best(x, v)'], tags=['lattice', 'neg', 'agg', 'lat_allbound'])
+# .. and the same with the value written as a non-variable expression (a literal, a constructor applied to a variable)
+both('lat_neg_expr', ['lattice l(i32, i32)', 'lattice d(i32, ascent::Dual<i32>)', 'relation s(i32, i32)', 'relation e(i32, i32)', 'relation miss(i32)', 'relation cnt(i32, usize)', 'relation near(i32)'],
+     ['l(x, *v) <-- s(x, v)', 'd(x, ascent::Dual(*v)) <-- s(x, v)',
+      'miss(x) <-- e(x, _), !l(x, 3)',
+      'miss(x) <-- e(x, v), !d(x, ascent::Dual(*v))',
+      'cnt(x, c) <-- e(x, v), agg c = count() in l(x, *v + 1)',
+      'near(x) <-- e(x, _), agg c = count() in d(_, ascent::Dual(2)), if c > 0'], tags=['lattice', 'neg', 'agg', 'lat_neg'])
 both('lat_valkey', ['relation inp(i32, i32)', 'relation step(i32)', 'lattice best(i32, i32)', 'relation probev(i32)', 'relation byval(i32, i32)'],
      ['best(x, *y) <-- inp(x, y)', 'best(x, v + 1) <-- best(x, v), step(v)', 'byval(x, v) <-- probev(v), best(x, v)'], tags=['lattice', 'lat_valkey'])
 P('lat_agg', ['relation inp(i32, i32)', 'lattice best(i32, i32)', 'relation n(usize)', 'relation top(i32)'],
